@@ -169,6 +169,12 @@ class Grid2D(GridObject):
         u_ind = np.any(selected_centroids, axis=0)
         v_ind = np.any(selected_centroids, axis=1)
 
+        if not inverse:  # the sub-grid spans from the first to the last selected cell
+            for ind in (u_ind, v_ind):
+                selected = np.where(ind)[0]
+                if len(selected) > 0:
+                    ind[selected[0] : selected[-1] + 1] = True
+
         indices = np.kron(v_ind, u_ind).flatten()
 
         if not np.any(indices):
